@@ -2,7 +2,7 @@
    runs of the real code (state before / after the call, shadow CropSharedVars, oracle values) and
    compares every output bit for bit. *)
 From Coq Require Import ZArith List Bool Floats.
-From Hermes Require Import Num CropModel CropNModel DevModel.
+From Hermes Require Import Num CropModel CropNModel DevModel RootDistModel.
 Import ListNotations.
 
 (* one evaluation of the N-content functions: inputs with oracle values, the arguments the harness passed to
@@ -141,4 +141,18 @@ Fixpoint dev_mismatches (i : nat) (l : list dev_obs) : list (nat * nat) :=
   | [] => []
   | c :: r => let v := dev_check c in
               if Nat.eqb v 0 then dev_mismatches (S i) r else (i, v) :: dev_mismatches (S i) r
+  end.
+
+(* the root distribution block of one traced day (RootDistModel): root mass, per-layer exponentials (oracle),
+   observed root length density WUDICH and root shares WUANT of the rooted layers.  1 = WUDICH, 2 = WUANT *)
+Record rootdist_obs := { rdo_zrk : bool; rdo_wumas : float; rdo_pi : float; rdo_dz : float; rdo_es : list (float * float);
+                         rdo_o_wudich : list float; rdo_o_wuant : list float }.
+Definition rootdist_check (o : rootdist_obs) : nat :=
+  let r := root_dist (rdo_zrk o) (rdo_wumas o) (rdo_pi o) (rdo_dz o) (rdo_es o) in
+  ((if floats_same (map fst r) (rdo_o_wudich o) then 0 else 1) + (if floats_same (map snd r) (rdo_o_wuant o) then 0 else 2))%nat.
+Fixpoint rootdist_mismatches (i : nat) (l : list rootdist_obs) : list (nat * nat) :=
+  match l with
+  | [] => []
+  | c :: r => let v := rootdist_check c in
+              if Nat.eqb v 0 then rootdist_mismatches (S i) r else (i, v) :: rootdist_mismatches (S i) r
   end.
